@@ -145,8 +145,11 @@ func showOp(kinds []Kind, op Op) string {
 			fmt.Fprintf(&sb, "iter[%s()", op.M)
 		}
 		fmt.Fprintf(&sb, " stop=%d re=%d", op.Stop, op.Re)
-		if op.Btw != 0 {
+		if op.Btw&1 != 0 {
 			sb.WriteString(" queries-between")
+		}
+		if op.Btw&2 != 0 {
+			sb.WriteString(" queries-inside")
 		}
 		if op.In != 0 {
 			fmt.Fprintf(&sb, " nested=%d", op.In)
